@@ -24,8 +24,9 @@ PROPERTY = 'C11'
 LEVEL = 'model_checking'
 BOUNDS = {'quick': {'blocks': '2 (all kind pairs, all wirings with <=2 out-edges per block) + 3-block cycle/diamond shapes',
                     'external_events': 2},
-          'thorough': {'blocks': '2 (all) + 3 (all wirings with <=1 out-edge per block, all kinds) + shapes',
-                       'external_events': 3}}
+          'thorough': {'blocks': '2 (all kind pairs: <=2 out-edges per block with 1 external event, <=1 out-edge with 2) + 3 (all '
+                                 'wirings with <=1 out-edge per block over probe/FSM/OutputFunc) + 3-block shapes',
+                       'external_events': 2}}
 OUTSIDE = ["more than 3 blocks", "edges other than on_output/on_every_output/on_enter/forwarding Repeat",
            "handlers raising exceptions of their own (C09)"]
 STUBS = ["Circuit.sblock_queue = list-backed stub (sync scenarios)", "virtual-time loop (Repeat scenario)"]
@@ -391,17 +392,24 @@ def shards(tier):
         out.append({'name': f'self {a}', 'scenario': 'scen_graph',
                     'params': {'kinds': [a], 'max_out': 2, 'nev': nev}})
         for b in KINDS:
-            out.append({'name': f'pair {a}{b}', 'scenario': 'scen_graph',
-                        'params': {'kinds': [a, b], 'max_out': 2 if tier == 'thorough' else 1, 'nev': nev if tier == 'thorough' else 1},
-                        'cost': 20})
+            if tier == 'quick':
+                out.append({'name': f'pair {a}{b}', 'scenario': 'scen_graph',
+                            'params': {'kinds': [a, b], 'max_out': 1, 'nev': 1}, 'cost': 20})
+            else:
+                # sized by path counts: either up to two out-edges per block with one external event,
+                # or one out-edge per block with a sequence of two external events
+                out.append({'name': f'pair {a}{b} max_out=2 nev=1', 'scenario': 'scen_graph',
+                            'params': {'kinds': [a, b], 'max_out': 2, 'nev': 1}, 'cost': 200})
+                out.append({'name': f'pair {a}{b} max_out=1 nev=2', 'scenario': 'scen_graph',
+                            'params': {'kinds': [a, b], 'max_out': 1, 'nev': 2}, 'cost': 60})
     for a in KINDS:
         out.append({'name': f'init loop ring {a}', 'scenario': 'scen_init_loop', 'params': {'kinds': [a], 'shape': 'ring'}})
         for b in KINDS:
             for shape in ('ring', 'tail'):
                 out.append({'name': f'init loop {shape} {a}{b}', 'scenario': 'scen_init_loop',
                             'params': {'kinds': [a, b], 'shape': shape}})
-            if tier == 'thorough' or a == 'F' or b == 'F':
-                for c in (KINDS if tier == 'thorough' else ['F', 'I']):
+            if a == 'F' or b == 'F':
+                for c in (['F', 'I', 'P'] if tier == 'thorough' else ['F', 'I']):
                     out.append({'name': f'init loop ring {a}{b}{c}', 'scenario': 'scen_init_loop',
                                 'params': {'kinds': [a, b, c], 'shape': 'ring'}})
     shapes = ['cycle3', 'diamond', 'chain-back']
@@ -411,9 +419,10 @@ def shards(tier):
                         'params': {'kinds': kinds, 'max_out': 0, 'nev': 1 if tier == 'quick' else 2, 'shape': shape},
                         'cost': 10})
     if tier == 'thorough':
-        for a in KINDS:
-            for b in KINDS:
-                for c in KINDS:
+        TK = ['P', 'F', 'O']        # three-block wirings over a probe, an FSM and an output block
+        for a in TK:
+            for b in TK:
+                for c in TK:
                     out.append({'name': f'triple {a}{b}{c}', 'scenario': 'scen_graph',
                                 'params': {'kinds': [a, b, c], 'max_out': 1, 'nev': 1}, 'cost': 30})
     return out
